@@ -113,3 +113,41 @@ package bridgesync
 //@   ensures[details-of-that-call] result0 ==> c.MainnetExitRoot == hashOf(unbox(data[3], [32]byte)) && c.RollupExitRoot == hashOf(unbox(data[4], [32]byte)) && c.DestinationNetwork == unbox(data[7], uint32) && c.Metadata == unbox(data[10], []byte) && c.FromAddress == senderAddr && c.GlobalExitRoot == H(c.MainnetExitRoot, c.RollupExitRoot)
 //@   ensures[proofs-of-that-call] result0 ==> forall(k, 0, 32, c.ProofLocalExitRoot[k] == hashOf(unbox(data[0], [32][32]byte)[k]) && c.ProofRollupExitRoot[k] == hashOf(unbox(data[1], [32][32]byte)[k]))
 //@   loop 0 unroll 32
+
+//@ func (c *Claim) decodePreEtrogCalldata
+//@   props C20
+//@   requires c != nil && c.GlobalIndex != nil && len(data) >= 10
+//@   modifies *c
+//@   ensures[only-the-matching-index] result0 ==> typeIs(data[1], uint32) && unbox(data[1], uint32) == bigval(c.GlobalIndex)
+//@   ensures[other-index-leaves-claim-untouched] (typeIs(data[1], uint32) && unbox(data[1], uint32) != old(bigval(c.GlobalIndex))) ==> !result0 && result1 == nil && *c == old(*c)
+//@   ensures[error-means-not-found] result1 != nil ==> !result0
+//@   ensures[index-untouched] c.GlobalIndex == old(c.GlobalIndex)
+//@   ensures[details-of-that-call] result0 ==> c.MainnetExitRoot == hashOf(unbox(data[2], [32]byte)) && c.RollupExitRoot == hashOf(unbox(data[3], [32]byte)) && c.DestinationNetwork == unbox(data[6], uint32) && c.Metadata == unbox(data[9], []byte) && c.FromAddress == senderAddr && c.GlobalExitRoot == H(c.MainnetExitRoot, c.RollupExitRoot)
+//@   ensures[proof-of-that-call] result0 ==> forall(k, 0, 32, c.ProofLocalExitRoot[k] == hashOf(unbox(data[0], [32][32]byte)[k]))
+//@   loop 0 unroll 32
+
+// the search through the call tree: whatever it returns is a call to the bridge that did not revert itself; nothing is
+// returned together with an error; an exhausted search is an error (db.ErrNotFound)
+//@ ghost field stkLen int
+//@ extern github.com/golang-collections/collections/stack.New ()
+//@   ensures result != nil && fresh(result) && stkLen(result) == 0
+//@ extern (*github.com/golang-collections/collections/stack.Stack).Push (s, value)
+//@   requires s != nil
+//@   modifies stkLen(s)
+//@   ensures stkLen(s) == old(stkLen(s)) + 1
+//@ extern (*github.com/golang-collections/collections/stack.Stack).Pop (s)
+//@   requires s != nil
+//@   modifies stkLen(s)
+//@   ensures stkLen(s) == ite(old(stkLen(s)) > 0, old(stkLen(s)) - 1, 0)
+//@ extern (*github.com/golang-collections/collections/stack.Stack).Len (s)
+//@   requires s != nil
+//@   ensures result == stkLen(s)
+
+//@ func findCall
+//@   props C20
+//@   requires logger != nil
+//@   modifies heap
+//@   ensures[found-is-a-live-call-to-the-bridge] result1 == nil ==> result0 != nil && result0.Err == nil && result0.To == targetAddr
+//@   ensures[error-means-nothing] result1 != nil ==> result0 == nil
+//@   loop 0 invariant callStack != nil && logger != nil
+//@   loop 1 invariant callStack != nil && logger != nil && 0 <= rangeindex + 1 && rangeindex + 1 <= len(currentCall.Calls)
